@@ -180,7 +180,7 @@ var Meta = map[string]PropMeta{
 	"C14": {
 		Level:       "exploration",
 		Technique:   "deterministic simulation: the same (source, destination, option subset) is run through all five arrangements under the scheduled transport; deadlock detector and error returns expose desynchronisation; destinations are compared pairwise and against the reference model's entry set",
-		Rule:        "random subsets of {-r -l -p -t -g -o -D --devices --specials --no-D --no-l --no-p --no-t --no-g --no-o -c -I -n --delete -a} (+ --exclude) on a tree that always contains a symlink, fifo, socket, char device, nested and plain files; prior destination with up-to-date, stale and extraneous entries. Oracle: every arrangement succeeds (no protocol error, deadlock, crash); destination entry set == model (created types per option, --delete, -n, exclude); destinations of A2..A4 equal A1's on content, link target, rdev, perms (+ file mtime with -t, owner/group with -o/-g). Non-trivial = >= 2 arrangements compared",
+		Rule:        "random subsets of {-r -l -p -t -g -o -D --devices --specials --no-D --no-l --no-p --no-t --no-g --no-o -c -I -n --delete -a} (+ --exclude) on a tree that always contains a symlink, fifo, socket, char device, nested and plain files; prior destination with up-to-date, stale and extraneous entries. Oracle: every arrangement succeeds (no protocol error, deadlock, crash); destination entry set == model (created types per option, --delete, -n, exclude); destinations of A2..A4 equal A1's on content, link target, rdev, perms (+ file mtime with -t, owner/group with -o/-g). One run in four adds 1-2 options the client's parser accepts but the model does not describe (-v.. --progress -H -u -d --no-r --info= --debug= --motd ...); those runs are judged by arrangement independence alone: all five arrangements end the same way (all succeed with equal destinations, or all refuse) and none hangs or crashes. Non-trivial = >= 2 arrangements compared",
 		Assumptions: []string{"runs as root so devices can be created", "sampled option subsets (2^20 x arrangements is not enumerated)"},
 		Real:        realCommon, Stub: stubCommon,
 		Quick:    q(2000, 45*time.Second),
